@@ -320,9 +320,29 @@ def hostile_run(cfg, hostile, n_iter):
         tap.__exit__()
 
 
+HKEYS = ("u", "x", "logl", "iter", "logz", "calls", "steps", "efficiency", "ess", "acceptance", "beta")
+
+
 def _hostile_loop(s, runs, hostile, n_iter, hit, ret_alias, snaps):
+    batch_dg = []          # digest of every committed batch, taken right after its commit
+    append_bad = []
     for it in range(n_iter):
         st = s.sample()
+        # append-only: exactly one new batch per recorded quantity, earlier batches bit-identical
+        sm = s.state
+        n = sm.get_history_length()
+        if n != it + 1:
+            append_bad.append(f"history length {n} after {it + 1} iterations")
+        keys = list(HKEYS) + (["blobs"] if len(sm._history.get("blobs", [])) else [])
+        lens = {k: len(sm._history[k]) for k in keys} if hasattr(sm, "_history") else {}
+        if lens and len(set(lens.values())) != 1:
+            append_bad.append(f"recorded quantities out of step after iteration {it + 1}: {lens}")
+        cur = [digest([sm.get_history(k, index=i) for k in keys if i < lens.get(k, n)]) for i in range(n)]
+        for i, d0 in enumerate(batch_dg):
+            if i < len(cur) and cur[i] != d0 and not hostile:
+                append_bad.append(f"iteration {it + 1} altered the batch committed by iteration {i + 1}")
+                break
+        batch_dg = cur
         got = dict(sample=st, results=s.results(), to_dict=s.state.to_dict(), current=s.state.get_current(),
                    hist_u=s.state.get_history("u"), hist_flat=s.state.get_history("logl", flat=True),
                    last=s.state.get_last_history("x"))
@@ -337,7 +357,7 @@ def _hostile_loop(s, runs, hostile, n_iter, hit, ret_alias, snaps):
             hit += scribble(got)
     final = digest(runs.history(s))
     res = s.results()
-    return dict(final=final, snaps=snaps, results=digest({k: v for k, v in res.items()}), hit=hit,
+    return dict(final=final, snaps=snaps, append_bad=append_bad[:3], results=digest({k: v for k, v in res.items()}), hit=hit,
                 aliases=sorted(set(ret_alias)), n_hist=s.state.get_history_length(),
                 post=digest(list(s.posterior(trim_importance_weights=False))))
 
@@ -346,6 +366,8 @@ def twin(cfg, n_iter):
     a = hostile_run(cfg, False, n_iter)
     b = hostile_run(cfg, True, n_iter)
     bad = []
+    for msg in a["append_bad"]:
+        bad.append(("history-not-append-only", msg))
     if b["aliases"]:
         bad.append(("alias-sampler-" + "+".join(b["aliases"])[:60], f"arrays returned by {b['aliases']} share memory with the sampler's internal state"))
     if a["final"] != b["final"]:
